@@ -12,6 +12,7 @@ Variant(v) ==
   CASE v = "A" -> {Art(PA, "h1")}
     [] v = "B" -> {Art(PA, "h1"), Art(PEvil, "h2")}
     [] v = "C" -> {Art(PA, "h2")}
+    [] v = "D" -> {Art(PA, "both:h1")}          \* recorded with two hash algorithms
 
 RuleSets == {"allow", "disallow_evil", "match"}
 EP(rs) == CASE rs = "allow" -> <<Simple("ALLOW", <<"*">>)>>
@@ -44,8 +45,19 @@ SubEvBad(how) ==
     Entry(<<"s1.k3">>, "in1", "k2",
           LinkD("in1", <<IF how = "sig" THEN BadSig("k2") ELSE GoodSig("k2")>>, {}, Variant("A")))>>
 
-MCInit ==
-  /\ \E thr \in {0, 1, 2}, rs \in RuleSets, two \in BOOLEAN,
+\* an artifact recorded with two hash algorithms on both sides of a MATCH, agreeing under one algorithm and
+\* differing under the other ("mix:a:b" = sha256 of a, sha512 of b): not the same artifact, whichever is looked at first
+MixS2(d) == <<Entry(<< >>, "s2", "k3", LinkD("s2", <<GoodSig("k3")>>, {Art(PA, d)}, {Art(PB, "h1")}))>>
+MixInit ==
+  \E thr \in {1, 2}, d \in {"both:h1", "mix:h1:h2", "mix:h2:h1"}, third \in BOOLEAN :
+     scn = Build(Layout(thr, "match", TRUE), Own("o1"),
+                 <<Entry(<< >>, "s1", "k1", LinkD("s1", <<GoodSig("k1")>>, {}, Variant("D"))),
+                   Entry(<< >>, "s1", "k2", LinkD("s1", <<GoodSig("k2")>>, {}, Variant("D")))>>
+                 \o (IF third THEN <<Entry(<< >>, "s1", "k3", LinkD("s1", <<GoodSig("k3")>>, {}, Variant("D")))>> ELSE << >>)
+                 \o MixS2(d), {})
+
+LatticeInit ==
+     \E thr \in {0, 1, 2}, rs \in RuleSets, two \in BOOLEAN,
         v1 \in {"A", "B", "C"}, v2 \in {"A", "B", "C"}, v3 \in {"none", "A", "B", "C", "subA", "subB", "subBadSig", "subBadRule"} :
        /\ (rs = "match" => two)
        /\ scn = Build(Layout(thr, rs, two), Own("o1"),
@@ -58,7 +70,9 @@ MCInit ==
                             [] v3 = "subBadRule" -> SubEvBad("rule")
                             [] OTHER -> <<Entry(<< >>, "s1", "k3", LinkD("s1", <<GoodSig("k3")>>, {}, Variant(v3)))>>)
                       \o (IF two THEN S2 ELSE << >>), {})
-  /\ VInitRest
+
+MCInit == (LatticeInit \/ MixInit) /\ VInitRest
+
 
 MCSpec == MCInit /\ [][VNext]_vars
 Emit == EmitAs("C13")
